@@ -377,12 +377,15 @@ def sortNat (xs : List Nat) : List Nat := xs.foldr insertSorted []
 /-- the packing test both detectors use -/
 def canPack (sizes : List Nat) : Bool := slotsUsed sizes > slotsUsed (sortNat sizes)
 
+/-- size of a state-variable definition (none for other contract parts) -/
+def varDefSize (p : T) : Option Nat :=
+  match varDefFields p with
+  | some (_ :: ty :: _) => some (typeSize ty)
+  | _ => none
+
 def packStorageVariables (su : T) : List Loc :=
   (contracts su).filterMap fun c =>
-    let sizes := (contractParts c).filterMap fun p =>
-      match varDefFields p with
-      | some (_ :: ty :: _) => some (typeSize ty)
-      | _ => none
+    let sizes := (contractParts c).filterMap varDefSize
     if canPack sizes then contractLoc c else none
 
 def structFieldsOf : T → Option (Loc × List T)
@@ -390,14 +393,16 @@ def structFieldsOf : T → Option (Loc × List T)
   | .node .ContractPart_StructDefinition [.node .S_StructDefinition [loc, _, fields]] => (Loc.ofT loc).map (·, vecItems fields)
   | _ => none
 
+/-- size of one struct member -/
+def structFieldSize : T → Option Nat
+  | .node .S_VariableDeclaration (_ :: ty :: _) => some (typeSize ty)
+  | _ => none
+
 def packStructVariables (su : T) : List Loc :=
   (extract [.StructDefinition] su).filterMap fun n =>
     match structFieldsOf n with
     | some (loc, fields) =>
-      let sizes := fields.filterMap fun f =>
-        match f with
-        | .node .S_VariableDeclaration (_ :: ty :: _) => some (typeSize ty)
-        | _ => none
+      let sizes := fields.filterMap structFieldSize
       if canPack sizes then some loc else none
     | none => none
 
